@@ -206,6 +206,194 @@ TIME = [("TimeStamp", 0), ("TimeInterval", 0)]
 OTHERS = [("TimeStamp", 0), ("TimeInterval", 0), ("BoundingBox", 0), ("Polygon", 0), ("MultiPolygon", 0)]
 
 
+def ob_time_ieee(a0: float, a1: float, b0: float, b1: float, tb: float) -> bool:
+    """
+    pre: 0 <= a0 <= 1e6 and 0 <= a1 <= 1e6 and 0 <= b0 <= 1e6 and 0 <= b1 <= 1e6 and 0 <= tb <= 1e3
+    post: _
+    """
+    # replay target of the IEEE search: the affinity of two time geometries, in doubles, lies in [0, 1] and does
+    # not depend on the order of the arguments
+    k1, k2 = h.P("k1"), h.P("k2")
+
+    def mk(kind, x, y):
+        if kind == "TimeStamp":
+            return data.TimeStamp(coordinates=x)
+        if not x <= y:
+            return None
+        return data.TimeInterval(coordinates=[x, y])
+
+    g1, g2 = mk(k1, a0, a1), mk(k2, b0, b1)
+    if g1 is None or g2 is None:
+        return True
+    r = aff.compute_affinity(g1, g2, time_buffer=tb, freq_buffer=100)
+    r2 = aff.compute_affinity(g2, g1, time_buffer=tb, freq_buffer=100)
+    if not (0 <= r <= 1):
+        return h.fail("affinity outside [0, 1] in doubles")
+    if r != r2:
+        return h.fail("affinity depends on the order of the arguments in doubles")
+    return h.done(any=True)
+
+
+def kx_time_iou(params, timeout):
+    """IEEE-754 decision for the time-only affinity: the real compute_affinity -> _prepare_geometry ->
+    buffer_geometry -> buffer_timestamp -> compute_affinity_in_time chain is run over z3 Float64 terms (geometries
+    are tokens carrying their coordinates; compute_bounds is its contract for time geometries: the coordinates
+    themselves, no arithmetic); per path the solvers are asked for doubles making the result leave [0, 1], be NaN, or
+    differ from the result with the arguments swapped."""
+    import time
+    import types
+
+    import z3
+
+    from soundevent.geometry import operations as ops
+    from vf import kx
+
+    k1, k2 = params["k1"], params["k2"]
+    a0, a1, b0, b1 = kx.var("a0", 1.0), kx.var("a1", 3.0), kx.var("b0", 2.0), kx.var("b1", 4.5)
+    tb = kx.var("tb", 0.25)
+    base = [kx.finite_between(v, 0.0, 1000000.0) for v in (a0, a1, b0, b1)] + [kx.finite_between(tb, 0.0, 1000.0)]
+    base += [z3.Not(z3.fpIsNegative(v.e)) for v in (a0, a1, b0, b1, tb)]  # -0.0 outside (ties are bit-identity)
+    if k1 == "TimeInterval":
+        base.append(z3.fpLEQ(a0.e, a1.e))
+    if k2 == "TimeInterval":
+        base.append(z3.fpLEQ(b0.e, b1.e))
+
+    class Tok:
+        def __init__(self, type, coordinates):
+            self.type, self.coordinates = type, coordinates
+
+    def interval(coordinates=None):
+        s_, e_ = coordinates
+        if s_ > e_:
+            raise ValueError("The start time must be less than or equal to the end time")  # the model's validator
+        return Tok("TimeInterval", [s_, e_])
+
+    def bounds(g):
+        if g.type == "TimeInterval":
+            return (g.coordinates[0], 0, g.coordinates[1], 5000000)
+        raise kx.SymbolicBranch("bounds of " + g.type)
+
+    fake_data = types.SimpleNamespace(TimeInterval=interval, TimeStamp=types.SimpleNamespace(geom_type=lambda: "TimeStamp"))
+
+    def mk(kind, x, y):
+        return Tok("TimeStamp", x) if kind == "TimeStamp" else Tok("TimeInterval", [x, y])
+
+    def run():
+        g1, g2 = mk(k1, a0, a1), mk(k2, b0, b1)
+        r = aff.compute_affinity(g1, g2, time_buffer=tb, freq_buffer=100)
+        r2 = aff.compute_affinity(g2, g1, time_buffer=tb, freq_buffer=100)
+        return (r, r2)
+
+    saved = (ops.data, ops.__dict__.get("max"), aff.compute_bounds, aff.__dict__.get("max"), aff.__dict__.get("min"))
+    ops.data, ops.max = fake_data, kx.kx_max
+    aff.compute_bounds, aff.max, aff.min = bounds, kx.kx_max, kx.kx_min
+    queries, spent, unknown, npaths, useful = 0, 0.0, False, 0, 0
+    found = None
+    t0 = time.time()
+    lem = kx.div_lemma(min(300.0, timeout / 3))
+    lemma_ok = lem["status"] == "unsat"
+    queries += 1
+    spent += lem["solve_s"]
+    try:
+        for pc, res in kx.explore_iter(run, max_paths=400, base=base, prune_timeout_ms=2000, deadline=t0 + timeout):
+            npaths += 1
+            if isinstance(res, Exception):
+                unknown = True
+                continue
+            useful += 1
+            r, r2 = res
+            # one list of alternative violations per path; each is posed as its own query so that the division
+            # circuit is only encoded when the quotient lemma does not apply
+            alts = []
+            seen_terms = set()
+            for x in (r, r2):
+                if isinstance(x, kx.ZF):
+                    if x.e.get_id() in seen_terms:
+                        continue
+                    seen_terms.add(x.e.get_id())
+                    direct = z3.Or(z3.fpGT(x.e, z3.FPVal(1.0, kx.F64)), z3.fpLT(x.e, z3.FPVal(0.0, kx.F64)),
+                                   z3.fpIsNaN(x.e))
+                    qf = kx.quotient_facts(x) if lemma_ok else None
+                    if qf:
+                        # x = n/d: under n >= 0, d > 0 (finite) "x > 1" is "n > d" and x is neither negative nor NaN
+                        alts.append(z3.And(qf[0], qf[1]))
+                        alts.append(z3.And(z3.Not(qf[0]), direct))
+                    else:
+                        alts.append(direct)
+                elif not 0 <= x <= 1:
+                    alts.append(z3.BoolVal(True))
+            if params.get("witness"):
+                # reachability witness (vacuity guard): an affinity strictly between 1/2 and 1 must be found
+                alts = [z3.And(z3.fpGT(x.e, z3.FPVal(0.5, kx.F64)), z3.fpLT(x.e, z3.FPVal(1.0, kx.F64)))
+                        for x in (r,) if isinstance(x, kx.ZF)]
+            elif isinstance(r, kx.ZF) and isinstance(r2, kx.ZF) and r.e.eq(r2.e):
+                pass  # the same term both ways round (NaN is covered above)
+            elif isinstance(r, kx.ZF) or isinstance(r2, kx.ZF):
+                alts.append(z3.Not(z3.fpEQ(kx.lift(r), kx.lift(r2))))
+            elif r != r2:
+                alts.append(z3.BoolVal(True))
+            rr = {"status": "unsat"}
+            for alt in alts:
+                left = timeout - (time.time() - t0)
+                if left < 5:
+                    unknown = True
+                    break
+                cons, _ties = kx.tie_normalize(base + pc + [alt], (a0, a1, b0, b1))
+                if any(z3.is_false(c) for c in cons):
+                    continue  # contradiction already syntactic
+                rr = kx.solve(cons, max(10.0, left / 3), {"a0": a0, "a1": a1, "b0": b0, "b1": b1, "tb": tb})
+                queries += 1
+                spent += rr["solve_s"]
+                if rr["status"] == "sat":
+                    for v_, u_ in _ties:  # tied inputs were merged: give them their representative's value
+                        rr["model"][v_] = rr["model"][u_]
+                    break
+                if rr["status"] != "unsat":
+                    unknown = True
+            if rr["status"] == "sat":
+                found = rr["model"]
+                break
+            if rr["status"] != "unsat":
+                unknown = True
+    finally:
+        ops.data, aff.compute_bounds = saved[0], saved[2]
+        for mod, name, old in ((ops, "max", saved[1]), (aff, "max", saved[3]), (aff, "min", saved[4])):
+            if old is None:
+                delattr(mod, name)
+            else:
+                setattr(mod, name, old)
+    if params.get("witness"):
+        # vacuity guard of the search: the witness must exist and the REAL code must agree with the encoding on it
+        if found is None:
+            return {"status": "error", "message": "reachability witness (affinity in (1/2, 1)) not found", "queries": queries}
+        m = found
+
+        def mk(kind, x, y):
+            return data.TimeStamp(coordinates=x) if kind == "TimeStamp" else data.TimeInterval(coordinates=[x, y])
+
+        real = aff.compute_affinity(mk(k1, m["a0"], m["a1"]), mk(k2, m["b0"], m["b1"]), time_buffer=m["tb"], freq_buffer=100)
+        ok = 0.5 < real < 1
+        return {"status": "confirmed" if ok else "error", "queries": queries, "paths": npaths, "solve_s": round(spent, 1),
+                "message": "witness %r: the real compute_affinity returns %r" % (m, real)}
+    if found is not None:
+        m = found
+        return {"status": "refuted", "backend": kx.LAST["backend"], "replay_fn": "ob_time_ieee",
+                "args": [[m["a0"], m["a1"], m["b0"], m["b1"], m["tb"]], {}], "queries": queries, "paths": npaths,
+                "solve_s": round(spent, 1), "clause": "affinity outside [0, 1] in doubles",
+                "message": "solver model: affinity of %s(%r, %r) and %s(%r, %r), time buffer %r, leaves [0, 1] or is "
+                "not symmetric in doubles" % (k1, m["a0"], m["a1"], k2, m["b0"], m["b1"], m["tb"])}
+    out = {"queries": queries, "paths": npaths, "solve_s": round(spent, 1), "unexplored": kx.EXHAUSTED["left"],
+           "division_lemma": "%s by %s in %.1fs" % (lem["status"], lem.get("backend"), lem["solve_s"])}
+    if not useful:
+        out.update(status="error", message="vacuous: no explored path returned an affinity")
+    elif unknown or kx.EXHAUSTED["left"]:
+        out.update(status="searched", message="no IEEE counterexample found within the budget (solver unknown on some "
+                   "path, or paths left unexplored)")
+    else:
+        out.update(status="confirmed", message="every explored path: result in [0,1], not NaN, symmetric (unsat)")
+    return out
+
+
 def plan():
     q = ("quick", "thorough")
     obs = []
@@ -238,6 +426,11 @@ def plan():
             obs.append(Ob("box-box-%s-%s" % (what, name), ob_box_pair, "real", 900, dict(what=what, fixed_freq=ff),
                           q if quick else ("thorough",),
                           twins=() if (no_overlap and what in ("iou", "shift")) else ("any",), twin_timeout=400))
+    for (k1, k2) in (("TimeInterval", "TimeInterval"), ("TimeStamp", "TimeInterval"), ("TimeStamp", "TimeStamp")):
+        obs.append(Ob("ieee-time-%s-%s" % (k1, k2), kx_time_iou, "kx", 900, dict(k1=k1, k2=k2), ("thorough",),
+                      kind="py"))
+    obs.append(Ob("ieee-time-witness", kx_time_iou, "kx", 600, dict(k1="TimeStamp", k2="TimeInterval", witness=True),
+                  ("thorough",), kind="py"))
     return obs
 
 
@@ -255,7 +448,10 @@ INFO = dict(
     trusted_base=["models/pyd.py", "models/shp.py (bounds; area/intersection of axis-aligned rectangles)",
                   "CrossHair 0.0.110 + z3 (Real)"],
     outside=[
-        "IEEE-754 rounding of the ratio (decided over the reals only): 'never more than 1' in doubles is NOT decided",
+        "IEEE-754 rounding of the ratio: decided over the reals only; for the time-only pairs the thorough tier adds "
+        "a refutation search over the real code run on Float64 terms (ieee-time-*: z3+cvc5, quotient lemma "
+        "fl(n/d) > 1 <=> n > d discharged at run time; tie, containment and disjoint paths are refuted, the "
+        "partial-overlap paths end without verdict) — 'never more than 1' in doubles is NOT decided",
         "the 64 type pairs that need GEOS buffer/intersection (Point, LineString, MultiPoint, MultiLineString "
         "anywhere; Polygon/MultiPolygon against non-time types); ratios such as 1.0000000000000007 arise there and "
         "are not reachable by this technique",
